@@ -22,13 +22,16 @@ struct Scripted
     template<typename Iterator, typename ErrorStream>
     constexpr ctpg::recognized_term match(ctpg::match_options, ctpg::source_point sp, Iterator start, Iterator end, ErrorStream&)
     {
-        size_t rem = size_t(end - start);
+        size_t rem = 0; for (Iterator it = start; !(it == end); ++it) ++rem;
         if (g_calls) g_calls->push_back(LexCall{rem, sp.line, sp.column});
         if (rem == 0 || !g_script) return ctpg::recognized_term{};
-        const char* p = &*start;
-        const Entry& e = g_script->by_byte[(unsigned char)*p];
+        char first = *start;
+        const Entry& e = g_script->by_byte[(unsigned char)first];
         if (e.term < 0) return ctpg::recognized_term{};
-        return ctpg::recognized_term(ctpg::size16_t(e.term), script_len(*g_script, p, rem));
+        size_t len = size_t(e.len);
+        if (e.mode == 1) { size_t k = 1; Iterator it = start; ++it; while (k < rem && k < len && *it == first) { ++k; ++it; } len = k; }
+        else if (len > rem) len = rem;
+        return ctpg::recognized_term(ctpg::size16_t(e.term), len);
     }
 };
 }
